@@ -40,6 +40,9 @@ func runChain(t *testing.T, r *Rng, em *Emitter, opts roundOpts, rounds int, emi
 				emit(node, w, in)
 				seq += uint64(r.Range(1, 12))
 				w.height += uint64(r.Range(0, 3))
+				if opts.jumps && r.Chance(35) {
+					w.height += uint64(r.Range(14, 5000))
+				}
 			}
 		})
 	})
@@ -146,6 +149,43 @@ func c01Edge() []JRound {
 		empty := must(ocr2keepersv3.AutomationObservation{}.Encode())
 		out = append(out, buildRound(4, 1, digest, 3, nil, [][]byte{dup, empty, empty}, []int{0, 1, 2}))
 	}
+	// n = 3f+2: 2f+1 observations at the 100-performable limit with pairwise different results arrive BEFORE the two
+	// vouchers of X (300 distinct results are tallied first): X still has f+1 identical votes and must be agreed
+	{
+		digest := genHash(r)
+		x := genResult(r, genUpkeepID(r, false), 100)
+		var raws [][]byte
+		for o := 0; o < 3; o++ {
+			var rs []ocr2keepers.CheckResult
+			for i := 0; i < 100; i++ {
+				rs = append(rs, genResult(r, genUpkeepID(r, i%2 == 0), 100))
+			}
+			raws = append(raws, must(ocr2keepersv3.AutomationObservation{Performable: rs}.Encode()))
+		}
+		vx := must(ocr2keepersv3.AutomationObservation{Performable: []ocr2keepers.CheckResult{x}}.Encode())
+		raws = append(raws, vx, vx)
+		out = append(out, buildRound(5, 1, digest, 14, nil, raws, []int{0, 1, 2, 3, 4}))
+		out = append(out, buildRound(8, 2, digest, 15, nil, append(append([][]byte{}, raws[:3]...), raws[0], raws[1], vx, vx, vx), []int{0, 1, 2, 3, 4, 5, 6, 7}))
+	}
+	// one log hits two upkeeps: u1 has a quorum result, u2 only a proposal — in the observation of u1's first voucher,
+	// carrying the same log extension; the round has a quorum block, so the proposal is stamped (its extension's block
+	// number is cleared): the agreed result for u1 must keep its own trigger
+	{
+		digest := genHash(r)
+		u1, u2 := genUpkeepID(r, true), genUpkeepID(r, true)
+		r1 := genResult(r, u1, 100)
+		r1.Trigger.LogTriggerExtension.BlockNumber = 97
+		r1.WorkID = wg(u1, r1.Trigger)
+		ext := *r1.Trigger.LogTriggerExtension
+		t2 := ocr2keepers.NewLogTrigger(100, r1.Trigger.BlockHash, &ext)
+		p2 := ocr2keepers.CoordinatedBlockProposal{UpkeepID: u2, Trigger: t2, WorkID: wg(u2, t2)}
+		hist := ocr2keepers.BlockHistory{{Number: 101, Hash: genHash(r)}, {Number: 100, Hash: r1.Trigger.BlockHash}}
+		o0 := must(ocr2keepersv3.AutomationObservation{Performable: []ocr2keepers.CheckResult{r1}, UpkeepProposals: []ocr2keepers.CoordinatedBlockProposal{p2}, BlockHistory: hist}.Encode())
+		o1 := must(ocr2keepersv3.AutomationObservation{Performable: []ocr2keepers.CheckResult{r1}, BlockHistory: hist}.Encode())
+		o2 := must(ocr2keepersv3.AutomationObservation{BlockHistory: hist}.Encode())
+		out = append(out, buildRound(4, 1, digest, 16, nil, [][]byte{o0, o1, o2}, []int{0, 1, 2}))
+		out = append(out, buildRound(4, 1, digest, 17, nil, [][]byte{o1, o2, o0}, []int{0, 1, 2}))
+	}
 	// volume: 100 agreed results of ~13 kB each (10 000 bytes of perform data), spread over four observations that each
 	// stay under the observation limit; the outcome (~1.3 MB) is far below MaxOutcomeLength and must list all of them
 	{
@@ -186,6 +226,11 @@ func TestC05(t *testing.T) {
 		if c%5 == 0 {
 			opts.proposalsMax = 90 // exceed the 50 per round limit
 		}
+		if c%5 == 3 {
+			opts.maxPool = 170 // more than 100 quorum results in a round while their work sits in the proposal history
+		}
+		opts.bigHeights = c%6 == 1
+		opts.jumps = c%4 == 2
 		runChain(t, r, em, opts, 30, func(node *Node, w *roundWorld, in JRound) {
 			impl, _ := runOutcome(node, in)
 			em.Emit("gen", in, impl)
